@@ -65,6 +65,15 @@ fn node_cfg_dev(rng: &mut impl Rng, mode: Mode, flavour: u64, focus: &str, idx: 
     if flavour % 7 == 3 {
         c.crypto.algorithms = vec!["plain".into()];
     }
+    if focus == "C02" && flavour % 2 == 1 {
+        // mixed settings: some nodes allow unencrypted sessions next to their ciphers, some only know plain, the rest
+        // insist on ciphers - a node can then hold sealed and unsealed sessions side by side
+        c.crypto.algorithms = match rng.gen_range(0..5) {
+            0 | 1 => vec!["plain".into(), "aes128".into(), "aes256".into(), "chacha20".into()],
+            2 => vec!["plain".into()],
+            _ => vec![],
+        };
+    }
     if focus == "C01" {
         // a random trust relation among three keys: own key by password, trusted set any non-empty subset (or unset)
         use crate::crypto::Crypto;
@@ -126,7 +135,7 @@ fn one_dev<P: Protocol>(run: u64, stream: u64, mode: Mode, steps: u64, focus: &s
     }
     // sessions negotiated as "plain" are not authenticated at all (C02's explicit exception): anything injected there is
     // accepted by design and poisons what the nodes tell each other, so plain runs get faults but no attacker
-    let plain_run = run % 7 == 3;
+    let plain_run = run % 7 == 3 || (focus == "C02" && run % 2 == 1);
     // where the random steps put their weight
     let (w_iface, w_restart, w_replay, w_forge) = match focus {
         "C01" => (5, 4, 8, 25),
@@ -154,7 +163,7 @@ fn one_dev<P: Protocol>(run: u64, stream: u64, mode: Mode, steps: u64, focus: &s
         }
     }
     sim.deliver_due();
-    if (focus == "C09" || focus == "C12" || focus == "C05") && !plain_run && run % 2 == 0 {
+    if ["C09", "C12", "C05", "C08", "C14", "C01"].contains(&focus) && !plain_run && run % 2 == 0 {
         // while the initiators still hold their finished handshake objects (60 s): every handshake datagram captured so far
         // presented to every node from every node's address (an outsider needs no key for that)
         for _ in 0..2 {
